@@ -169,11 +169,6 @@ Fixpoint set_dedup_aux (seen l : list pyval) : list pyval :=
   end.
 Definition set_dedup (l : list pyval) : list pyval := set_dedup_aux [] l.
 
-(* deserialize_single_field(NoneField(), v) for a list/dict v calls NoneType( *v ) / NoneType( **v ):
-   the empty list and the empty dict deserialize to None *)
-Definition empty_container (v : pyval) : bool :=
-  match v with PList [] | PDict [] => true | _ => false end.
-
 Inductive level := NotNested | Nested.
 
 Fixpoint first_ok {A} (f : A -> res pyval) (l : list A) : res pyval :=
@@ -228,7 +223,7 @@ Section WithOracles.
   (* the two halves, needed for AnyOf: what deserialize_single_field returns ... *)
   Definition leaf_deser (l : leaf) (v : pyval) : res pyval :=
     match l with
-    | LPrim FNone => if empty_container v then Ok PNone else Raise ValueError
+    | LPrim FNone => Raise ValueError        (* deserialize_single_field(NoneField(), v), v not None: "Expected None" *)
     | LPrim f => match vset re_match [] f v with Ok _ => Ok v | Raise x => Raise x end
     | _ => reg_leaf l v
     end.
@@ -267,12 +262,7 @@ Section WithOracles.
         | _ => Raise ValueError
         end
     | TRef c => dc c v
-    | TOpt nf f =>
-        if nf && empty_container v then Ok PNone
-        else match reg_store dc0 dc0 f v with
-             | Ok w => Ok w
-             | Raise x => if empty_container v then Ok PNone else Raise x
-             end
+    | TOpt nf f => reg_store dc0 dc0 f v       (* v is not None: the NoneField option rejects it, wherever it is listed *)
     | TUnion ls => d <- first_ok (fun l => leaf_deser l v) ls ;; first_ok (fun l => leaf_set l d) ls
     | TOther id _ => ostore id v
     end.
